@@ -5,7 +5,6 @@
 package kfl
 
 import (
-	"bufio"
 	"encoding/base64"
 	"errors"
 	"fmt"
@@ -493,9 +492,12 @@ func redactXml(obj interface{}, path string) (xmlValue []byte, err error) {
 	}
 	xmlValue, err = mv.Xml()
 	if len(nextXML) > 2 && nextXML[0:2] == "<?" {
-		scanner := bufio.NewScanner(strings.NewReader(nextXML))
-		scanner.Scan()
-		xmlValue = []byte(fmt.Sprintf("%s\n%s", scanner.Text(), string(xmlValue)))
+		// The declaration is put back in front. It used to be taken as the first line of the document:
+		// when the document follows its declaration on the same line (as most SOAP bodies do) that line
+		// is the whole unredacted document, which then came back in front of the redacted one.
+		if end := strings.Index(nextXML, "?>"); end >= 0 {
+			xmlValue = []byte(fmt.Sprintf("%s\n%s", nextXML[:end+2], string(xmlValue)))
+		}
 	}
 
 	if base64Encode {
